@@ -98,6 +98,31 @@ impl Prop for EqualPairs {
             }
             loc.class("fen_reparse");
         }
+        // (2b) the position reached by weechess's own play versus the same position built directly:
+        // "however they were reached" (a move-application path may leave different internal state)
+        if let Source::Play(c) = &case.source {
+            let played = gen::play(starts(), c);
+            let mut w = glue::state_direct(&played.positions[0]);
+            for (i, m) in played.moves.iter().enumerate() {
+                let set = MoveGenerator::compute_legal_moves(&w);
+                let Some(r) = set.moves().iter().find(|r| glue::read_move(&r.0) == *m) else {
+                    return Err(format!("legal move {} not generated from '{}'", m.lan(), played.positions[i].fen()));
+                };
+                w = r.1.clone();
+                loc.eval();
+                let direct = glue::state_direct(&played.positions[i + 1]);
+                if hs.hash(&w) != hs.hash(&direct) {
+                    return Err(format!(
+                        "'{}' reached by playing {} from '{}' hashes differently from the same position built directly (hasher seed {})",
+                        played.positions[i + 1].fen(), played.moves[..=i].iter().map(|m| m.lan()).collect::<Vec<_>>().join(" "), played.positions[0].fen(), case.hasher_seed
+                    ));
+                }
+                if m.castle.is_some() || m.ep || m.promo.is_some() {
+                    loc.class("played_vs_built_after_special_move");
+                    loc.nontrivial(&(played.positions[i + 1].fen4(), "played"));
+                }
+            }
+        }
         // (3) two move orders a,b,c and c,b,a reaching the same 4-field position
         let legal = p.legal();
         if legal.len() >= 2 {
@@ -324,11 +349,12 @@ pub fn plan(ctx: &Ctx) -> Plan {
     let t = ctx.tier;
     Plan {
         props: vec![
-            (Box::new(EqualPairs), t.pick(300_000, 6_000_000)),
+            (Box::new(EqualPairs), t.pick(150_000, 4_000_000)),
             (Box::new(UnequalPairs), t.pick(1_500_000, 30_000_000)),
         ],
         rule: "hasher seeds are generated (ChaCha8, as the engine seeds its hashers). Equal pairs: the same position \
-               with different counters; a state and its FEN re-parse; two move orders a,b,c / c,b,a from a generated \
+               with different counters; a state and its FEN re-parse; every position of a random game reached by \
+               weechess's own successors versus the same position built directly; two move orders a,b,c / c,b,a from a generated \
                position that the oracle shows to reach the same 4-field position, each reached by weechess's own play. \
                Unequal pairs differ from a generated legal position in exactly one component and are again legal: one \
                piece moved / added / removed / recoloured / re-kinded, side to move flipped, a different castling-right \
